@@ -62,3 +62,6 @@ Definition py_iprange (a b : Z * Z) : outcome (Z * Z * Z) :=
   else Ok (fst a, snd a, snd b).
 (* IPNetwork(addr) for an IPAddress object (version, value): the /width network (what iprange_to_cidrs makes of its arguments) *)
 Definition py_net_of_addr (a : Z * Z) : net := addr_net (fst a) (snd a).
+(* x.previous() / x.next() for an IPNetwork object (step 1): not translated (they go through a string), the hand models *)
+Definition py_net_previous (n : net) : outcome net := net_previous n.
+Definition py_net_next (n : net) : outcome net := net_next n.
